@@ -13,7 +13,7 @@ use serde_json::json;
 use std::collections::BTreeSet;
 
 fn leaves() -> Vec<E> {
-    vec![E::col("K"), E::col("A"), E::col("S"), E::null(), E::int(0), E::int(1), E::int(2), E::str(""), E::str("a")]
+    vec![E::col("K"), E::col("A"), E::col("S"), E::col("R"), E::null(), E::int(0), E::int(1), E::int(2), E::str(""), E::str("a")]
 }
 
 fn conditions() -> Vec<E> {
@@ -44,13 +44,56 @@ fn conditions() -> Vec<E> {
     out
 }
 
+/// Depth-2 conditions in which a logical operator sits *inside* a comparison
+/// or a sum (its 0/1 result is then used as a number); run on the contents of
+/// at most one row.
+fn nested_logic_conditions() -> Vec<E> {
+    let l = leaves();
+    let mut out = Vec::new();
+    for op1 in [Bin::And, Bin::Or] {
+        for a in &l {
+            for b in &l {
+                let inner = E::bin(op1, a.clone(), b.clone());
+                let mut c = BTreeSet::new();
+                inner.columns(&mut c);
+                if c.is_empty() {
+                    continue;
+                }
+                for outer in [E::int(0), E::int(1), E::int(2), E::col("A")] {
+                    out.push(E::bin(Bin::Eq, inner.clone(), outer.clone()));
+                    out.push(E::bin(Bin::Eq, E::bin(Bin::Add, inner.clone(), outer.clone()), E::int(2)));
+                }
+            }
+        }
+    }
+    for a in &l {
+        let inner = E::un(Un::Not, a.clone());
+        let mut c = BTreeSet::new();
+        inner.columns(&mut c);
+        if !c.is_empty() {
+            out.push(E::bin(Bin::Eq, E::bin(Bin::Add, inner.clone(), E::col("A")), E::int(2)));
+            out.push(E::bin(Bin::Lt, inner, E::col("A")));
+        }
+    }
+    out
+}
+
 fn contents(max_rows: usize) -> Vec<Vec<Vec<Val>>> {
     let avals = [Val::Null, Val::Int(0), Val::Int(1), Val::Int(2)];
     let svals = [Val::Null, Val::s("a")];
-    let mut per_row: Vec<(Val, Val)> = Vec::new();
+    let rvals = [Val::Null, Val::s("a"), Val::s("b")];
+    // integer group: every A x S with R null; string group: A in {null, 1} x every S x R
+    let mut per_row: Vec<(Val, Val, Val)> = Vec::new();
     for a in &avals {
         for s in &svals {
-            per_row.push((a.clone(), s.clone()));
+            per_row.push((a.clone(), s.clone(), Val::Null));
+        }
+    }
+    for a in [Val::Null, Val::Int(1)] {
+        for s in &svals {
+            for r in &rvals[1..] {
+                per_row.push((a.clone(), s.clone(), r.clone()));
+            }
         }
     }
     let mut out: Vec<Vec<Vec<Val>>> = vec![vec![]];
@@ -63,9 +106,9 @@ fn contents(max_rows: usize) -> Vec<Vec<Vec<Val>>> {
         for mut i in 0..n {
             let mut rows = Vec::new();
             for k in &keys {
-                let (a, s) = &per_row[i % per_row.len()];
+                let (a, s, r) = &per_row[i % per_row.len()];
                 i /= per_row.len();
-                rows.push(vec![Val::Int(*k), a.clone(), s.clone()]);
+                rows.push(vec![Val::Int(*k), a.clone(), s.clone(), r.clone()]);
             }
             out.push(rows);
         }
@@ -79,6 +122,7 @@ fn truth(row: &[Val], e: &E) -> Option<bool> {
             "K" => row[0].clone(),
             "A" => row[1].clone(),
             "S" => row[2].clone(),
+            "R" => row[3].clone(),
             _ => Val::Null,
         }
     };
@@ -91,7 +135,39 @@ fn truth(row: &[Val], e: &E) -> Option<bool> {
 }
 
 fn table_op() -> Op {
-    Op::CreateTable { name: "T".into(), cols: vec![ColSpec::new("K", Ty::I16).key(), ColSpec::new("A", Ty::I32).nullable(), ColSpec::new("S", Ty::Str(8)).nullable()] }
+    Op::CreateTable { name: "T".into(), cols: vec![ColSpec::new("K", Ty::I16).key(), ColSpec::new("A", Ty::I32).nullable(), ColSpec::new("S", Ty::Str(8)).nullable(), ColSpec::new("R", Ty::Str(8)).nullable()] }
+}
+
+/// Builds table T with `content`.  `holes`: the texts of column R are stored
+/// through updates after a scratch table's strings were freed, so that they
+/// land in re-used pool entries (the same text as in column S then sits in a
+/// second entry).
+fn build(content: &[Vec<Val>], holes: bool) -> Harness {
+    let mut h = Harness::create(0).expect("create");
+    assert!(h.apply(&table_op()).is_ok());
+    if !holes {
+        if !content.is_empty() {
+            assert!(h.apply(&Op::Insert { table: "T".into(), rows: content.to_vec() }).is_ok());
+        }
+        return h;
+    }
+    let scratch = [
+        Op::CreateTable { name: "X".into(), cols: vec![ColSpec::new("k", Ty::I16).key(), ColSpec::new("t", Ty::Str(8)).nullable()] },
+        Op::Insert { table: "X".into(), rows: vec![vec![Val::Int(1), Val::s("p")], vec![Val::Int(2), Val::s("q")], vec![Val::Int(3), Val::s("r")]] },
+    ];
+    for op in &scratch {
+        assert!(h.apply(op).is_ok());
+    }
+    let without_r: Vec<Vec<Val>> = content.iter().map(|r| vec![r[0].clone(), r[1].clone(), r[2].clone(), Val::Null]).collect();
+    assert!(h.apply(&Op::Insert { table: "T".into(), rows: without_r }).is_ok());
+    assert!(h.apply(&Op::Delete { table: "X".into(), cond: None }).is_ok());
+    for r in content {
+        if r[3] != Val::Null {
+            assert!(h.apply(&Op::Update { table: "T".into(), sets: vec![("R".into(), r[3].clone())], cond: Some(E::bin(Bin::Eq, E::col("K"), E::Lit(r[0].clone()))) }).is_ok());
+        }
+    }
+    assert!(h.apply(&Op::DropTable { name: "X".into() }).is_ok());
+    h
 }
 
 fn read_rows(h: &mut Harness) -> Result<Vec<Vec<Val>>, String> {
@@ -103,31 +179,41 @@ fn read_rows(h: &mut Harness) -> Result<Vec<Vec<Val>>, String> {
 
 pub fn run(tier: Tier, rep: &mut Report) -> (u64, u64) {
     let conds = conditions();
+    let n_plain = conds.len();
+    let conds: Vec<E> = conds.into_iter().chain(nested_logic_conditions()).collect();
     let all = contents(if tier.thorough() { 3 } else { 2 });
     let dml_rows = if tier.thorough() { 3 } else { 1 };
-    let results: Vec<(u64, u64, Vec<Violation>)> = all
+    let jobs: Vec<(&Vec<Vec<Val>>, bool)> = all.iter().flat_map(|c| {
+        let has_r = c.iter().any(|r| r[3] != Val::Null);
+        let mut v = vec![(c, false)];
+        if has_r {
+            v.push((c, true));
+        }
+        v
+    }).collect();
+    let results: Vec<(u64, u64, Vec<Violation>)> = jobs
         .par_iter()
-        .map(|content| {
+        .map(|(content, holes)| {
+            let content: &Vec<Vec<Val>> = content;
             let mut out: Vec<Violation> = Vec::new();
             let mut n = 0u64;
             let mut determined = 0u64;
-            let mut h = Harness::create(0).expect("create");
-            assert!(h.apply(&table_op()).is_ok());
-            if !content.is_empty() {
-                assert!(h.apply(&Op::Insert { table: "T".into(), rows: content.clone() }).is_ok());
-            }
+            let mut h = build(content, *holes);
             let bytes = {
                 let b = h.close_into_inner().expect("close");
                 h = Harness::open(b.clone()).expect("reopen");
                 b
             };
-            let ctx = crate::snapshot::show_rows(&Ok(content.clone()));
+            let ctx = format!("{}{}", crate::snapshot::show_rows(&Ok(content.clone())), if *holes { " [column R stored in re-used pool entries]" } else { "" });
             let mk = |kind: &str, class: &str, detail: String, e: &E| Violation {
                 signature: format!("conditions:{}:{}", kind, class),
                 detail,
-                replay: json!({"kind":"c03-cond","content":content,"cond":e,"op":kind}),
+                replay: json!({"kind":"c03-cond","content":content,"cond":e,"op":kind,"holes":holes}),
             };
-            for e in &conds {
+            for (ei, e) in conds.iter().enumerate() {
+                if ei >= n_plain && content.len() > 1 {
+                    break; // the nested-logic family runs on contents of <= 1 row
+                }
                 let tv: Vec<Option<bool>> = content.iter().map(|r| truth(r, e)).collect();
                 if tv.iter().any(|t| t.is_none()) {
                     continue; // condition of unspecified value on some row
@@ -176,7 +262,7 @@ pub fn run(tier: Tier, rep: &mut Report) -> (u64, u64) {
                     Outcome::Panic(p) => out.push(mk("update", &format!("panic:{}", panic_site(&p)), format!("update where {} on {} panicked: {}", e.show(), ctx, p), e)),
                     Outcome::Err(er) => out.push(mk("update", "error", format!("update where {} on {} failed: {}", e.show(), ctx, er), e)),
                     Outcome::Ok => {
-                        let want: Vec<Vec<Val>> = content.iter().zip(tv.iter()).map(|(r, t)| if *t { vec![r[0].clone(), Val::Int(7), Val::s("upd")] } else { r.clone() }).collect();
+                        let want: Vec<Vec<Val>> = content.iter().zip(tv.iter()).map(|(r, t)| if *t { vec![r[0].clone(), Val::Int(7), Val::s("upd"), r[3].clone()] } else { r.clone() }).collect();
                         match read_rows(&mut hu) {
                             Ok(rows) if rows == want => {}
                             other => out.push(mk("update", "rows", format!("update where {} on {} gave {:?} expected {}", e.show(), ctx, other.map(|r| crate::snapshot::show_rows(&Ok(r))), crate::snapshot::show_rows(&Ok(want))), e)),
@@ -208,11 +294,7 @@ pub fn replay(doc: &serde_json::Value) {
     for r in &content {
         println!("  row {:?}: reference truth {:?}", r, truth(r, &e));
     }
-    let mut h = Harness::create(0).unwrap();
-    h.apply(&table_op());
-    if !content.is_empty() {
-        h.apply(&Op::Insert { table: "T".into(), rows: content.clone() });
-    }
+    let mut h = build(&content, doc["holes"].as_bool().unwrap_or(false));
     let kind = doc["op"].as_str().unwrap_or("select");
     match kind {
         "delete" => println!("{:?}", h.apply(&Op::Delete { table: "T".into(), cond: Some(e.clone()) })),
